@@ -445,6 +445,14 @@ def body(ctx):
               "(void)(s == ms); (void)(ms == s); (void)(s < ms); (void)(ms < s); (void)(s + ms); (void)(ms + s); (void)(s - ms); (void)(ms - s);\n"
               "(void)(au::seconds(1.0) < d); (void)(d >= au::seconds(1.0)); (void)(au::milli(au::seconds)(7) != ms); }")
     items.append(witness.Item("w:chrono", chrono, "accept", None, dict(desc="Quantity vs std::chrono::duration operators compile under every configuration")))
+    # the six comparisons with a Quantity-equivalent operand (a chrono duration) on EITHER side, for an
+    # equal, a smaller and a larger operand of another unit: exact answers in constant expressions
+    chrono_v = ("constexpr std::chrono::milliseconds ms{2000}; constexpr auto s1 = au::seconds(1); constexpr auto s2 = au::seconds(2); constexpr auto s3 = au::seconds(3);\n"
+                "static_assert((ms == s2) && (s2 == ms) && !(ms != s2) && !(s2 != ms) && (ms <= s2) && (ms >= s2) && (s2 <= ms) && (s2 >= ms) && !(ms < s2) && !(ms > s2) && !(s2 < ms) && !(s2 > ms), \"equal operands\");\n"
+                "static_assert((ms < s3) && (ms <= s3) && !(ms > s3) && !(ms >= s3) && (s3 > ms) && (s3 >= ms) && !(s3 < ms) && !(s3 <= ms) && (ms != s3) && (s3 != ms) && !(ms == s3), \"smaller on the duration side\");\n"
+                "static_assert((ms > s1) && (ms >= s1) && !(ms < s1) && !(ms <= s1) && (s1 < ms) && (s1 <= ms) && !(s1 > ms) && !(s1 >= ms), \"larger on the duration side\");\n"
+                "static_assert((ms + s1) == au::milli(au::seconds)(3000) && (s1 + ms) == au::milli(au::seconds)(3000) && (ms - s1) == au::milli(au::seconds)(1000) && (s3 - ms) == au::milli(au::seconds)(1000), \"sums and differences\");")
+    items.append(witness.Item("cx:chrono", chrono_v, "accept", None, dict(desc="the six comparisons, + and - with a std::chrono::duration on either side: exact values for equal / smaller / larger operands")))
     wprel = witness.DEFAULT_PRELUDE + USING + '#include "au/units/seconds.hh"\n#if __cplusplus >= 202002L\n#include <compare>\n#endif\n'
     results, stats = witness.judge(ctx, items, cxx.ALL_CONFIGS if ctx.thorough else configs + [cxx.CLANG20], prelude=wprel, batch=20, tag="c08")
     nbad = witness.report_mismatches(ctx, items, results, prelude=wprel)
